@@ -10,6 +10,17 @@ COMMON_NOTE = ("Trusted base: pyvc engine (AST transform T1-T3 of the real sourc
                "lift to C), A3 (integer powers), A4 (path forking via z3), A5 (numpy shim contracts, listed per run in evidence.trusted_base). ")
 
 CLAIMED = {
+    "C24": dict(
+        category="proof",
+        text=("With cern_polygamma replaced by its contract (polygamma in normalised form: recurrence + closed forms at integer / half-integer arguments) the real ekore.harmonics code gives: "
+              "(1) S_k(N) and S_-k(N), k = 1..5, equal their defining sums exactly for N = 1..60 (rational arithmetic, zeta / ln2 / gamma_E atoms cancel), with the parity flag and with (-1)^N; "
+              "(2) the one-step recurrences of S_k and S_-k (with the parity switch) and the contract of recursive_harmonic_sum for SYMBOLIC complex N; (3) cache transparency: for each of "
+              "the 31 keys and both parity flags, from EVERY pre-state of the lookup's footprint satisfying the invariant 'slot is NaN or its specification value' (all subsets) cache.get "
+              "returns the direct-evaluation value, preserves the invariant and writes no slot outside the footprint -- hence any lookup order gives the values of direct evaluation."),
+        note=COMMON_NOTE + "Not claimed: nested sums against their definitions and the Mellin transforms against their integrals (numerically approximated g-functions), accuracy of cern_polygamma itself; real-analyticity is C26.",
+        technique="contract-based deductive verification: symbolic execution over the polygamma contract + exact normal form; representation-invariant proof of the cache over all footprint pre-states",
+        design_ref="DESIGN.md section 2, C24",
+    ),
     "C26": dict(
         category="proof",
         text=("All ekore entry points (gamma_ns / gamma_singlet unpolarised, polarised, time-like; QED grids; A_singlet / A_non_singlet of the three matching variants) and everything below them "
